@@ -4,6 +4,7 @@ import Driver.CodecD
 import Driver.HsD
 import Driver.CliD
 import Driver.StreamD
+import Driver.LifeD
 /-!
 # `limedriver` — line protocol in front of the executable model
 
@@ -28,6 +29,7 @@ def dispatch (j : Json) : R Json := do
   | "cliwants" => CliD.handleWants j
   | "clijudge" => CliD.handleJudge j
   | "build" => CodecD.handleBuild j
+  | "life" => LifeD.handle j
   | "wloop" => StreamD.handleWloop j
   | "frames" => StreamD.handleFrames j
   | "rlimit" => StreamD.handleRlimit j
